@@ -46,7 +46,12 @@ def check_case(jp, text, q, doc, rec, via):
         o = mon.observe(run)
         got = mon.sig(o[1]) if o[0] == "ok" else None
     else:
-        o = mon.observe(lambda: list(jp.compile(text).finditer(doc)))
+        o = mon.observe(jp.compile, text)
+        cond = mon.HOST["last"]
+        if o[0] == "ok":
+            c_ = o[1]
+            o = mon.observe(lambda: list(c_.finditer(doc)))
+            mon.HOST["last"] = mon.HOST["last"] or cond
         got = mon.sig(o[1]) if o[0] == "ok" else None
     rec.monitor("M-find")
     if o[0] != "ok":
@@ -61,6 +66,14 @@ def check_case(jp, text, q, doc, rec, via):
 
 
 def report(jp, rec, key, text, q, doc, via):
+    cond = mon.HOST["last"]
+    if cond is None:
+        return _report(jp, rec, key, text, q, doc, via, None)
+    with mon.forced(cond):
+        return _report(jp, rec, key, text, q, doc, via, cond)
+
+
+def _report(jp, rec, key, text, q, doc, via, cond):
     # minimise: document first, then the query (canonical spelling) if the failure survives re-rendering
     def fails_doc(d):
         k, _, _ = check_case(jp, text, q, d, _Null(), via)
@@ -79,7 +92,7 @@ def report(jp, rec, key, text, q, doc, via):
     k, want, got = check_case(jp, text2, q2, doc2, _Null(), via)
     rec.violation(key, {"query": text2, "ast": jsonable(q2), "document": jsonable(doc2), "via": via if isinstance(via, str) else [via[0], jsonable(via[1]) if via[0] == "reuse" else "environment instance toggled nondeterministic on/off"],
                         "expected_locations": mon.locs_only(want), "observed": mon.locs_only(got) if isinstance(got, list) else got,
-                        "original_query": text})
+                        "original_query": text, "host_condition": list(cond) if cond else None})
 
 
 class _Null:
